@@ -197,11 +197,44 @@ class SymStr(str):
         return vc is not None and not (set(chars) & vc)
 
     def split(self, sep=None, maxsplit=-1):
-        if sep is None or maxsplit != -1 or isinstance(sep, SymStr):
+        if sep is None or not isinstance(maxsplit, int) or isinstance(maxsplit, bool) or isinstance(sep, SymStr) or not isinstance(sep, str):
             raise Unsupported("split form")
         if not self._occurrences_literal_only(sep):
             raise Unsupported(f"split on {sep!r}: a variable part may contain the separator")
-        return [SymStr(p) for p in self.payload.split(sep)]
+        # every occurrence of the separator lies in the literal text, at the same place in every instance: the payload's split
+        # (with the same maxsplit) is the split of every instance
+        return [SymStr(p) for p in self.payload.split(sep, maxsplit)]
+
+    def rsplit(self, sep=None, maxsplit=-1):
+        if sep is None or not isinstance(maxsplit, int) or isinstance(maxsplit, bool) or isinstance(sep, SymStr) or not isinstance(sep, str):
+            raise Unsupported("rsplit form")
+        if not self._occurrences_literal_only(sep):
+            raise Unsupported(f"rsplit on {sep!r}: a variable part may contain the separator")
+        return [SymStr(p) for p in self.payload.rsplit(sep, maxsplit)]
+
+    def partition(self, sep):
+        if isinstance(sep, SymStr) or not isinstance(sep, str) or not self._occurrences_literal_only(sep):
+            raise Unsupported("partition: a variable part may contain the separator")
+        return tuple(SymStr(p) if p != sep else sep for p in self.payload.partition(sep))
+
+    def rpartition(self, sep):
+        if isinstance(sep, SymStr) or not isinstance(sep, str) or not self._occurrences_literal_only(sep):
+            raise Unsupported("rpartition: a variable part may contain the separator")
+        return tuple(SymStr(p) if p != sep else sep for p in self.payload.rpartition(sep))
+
+    def sym_len(self):
+        """len(s) as a symbolic integer: the literal characters plus one non-negative unknown per variable part (>= 1 when the
+        variable's language does not contain the empty text)"""
+        from .pyvc import SymInt, assume
+        total = z3.IntVal(0)
+        for sg in self.segs():
+            if isinstance(sg, str):
+                total = total + len(sg)
+            else:
+                v = z3.Int(f"len!{sg.ident}")
+                assume(v >= (0 if _nullable(_mast(sg)) else 1))
+                total = total + v
+        return SymInt(z3.simplify(total), f"len({self.render()})")
 
     def _occurrences_literal_only(self, needle: str) -> bool:
         """every occurrence of needle in every instance lies inside the literal text, at the payload positions"""
@@ -290,6 +323,14 @@ class SymStr(str):
         except Exception:
             return "SymStr(?)"
 
+    def removeprefix(self, pre):
+        if self.startswith(pre):
+            p = self.payload
+            if p.startswith(pre):
+                return SymStr(p[len(pre):])
+            raise Unsupported("removeprefix: prefix lies in a variable part")
+        return self
+
     def removesuffix(self, suf):
         if self.endswith(suf):
             p = self.payload
@@ -301,9 +342,12 @@ class SymStr(str):
     def _unsup(self, *a, **k):
         raise Unsupported("unmodelled operation on a structured string")
 
-    strip = lstrip = rstrip = find = index = rfind = count = upper = partition = rpartition = rsplit = _unsup
-    isdigit = isalnum = isalpha = removeprefix = splitlines = title = casefold = zfill = center = _unsup
+    strip = lstrip = rstrip = find = index = rfind = count = upper = _unsup
+    isdigit = isalnum = isalpha = splitlines = title = casefold = zfill = center = _unsup
     __lt__ = __le__ = __gt__ = __ge__ = __mul__ = __rmul__ = __mod__ = _unsup
+    # every remaining str method would run natively on the payload (markers): none is modelled
+    capitalize = encode = expandtabs = format = format_map = isascii = isdecimal = isidentifier = islower = isnumeric = _unsup
+    isprintable = isspace = istitle = isupper = ljust = rindex = rjust = swapcase = translate = _unsup
 
     # int() support (rt.b_int)
     def sym_int(self, base):
